@@ -161,7 +161,18 @@ func (x *Exec) sliceOp(cfg *Config, f *Frame, i *ssa.Slice) Val {
 		goal := And(Le(z, lo), Le(lo, hi), Le(hi, n))
 		x.oblige(cfg, "slice-bounds", x.nameOf(i.X), goal, nil, i.Pos())
 		st.assume(goal)
-		return TV{T: x.newSliceHeader(st, base, lo, Sub(hi, lo), Sub(n, lo))}
+		hdr := x.newSliceHeader(st, base, lo, Sub(hi, lo), Sub(n, lo))
+		if at.Len() <= 8 && !isStructType(at.Elem()) {
+			// a small array turned into a slice (variadic arguments): name the
+			// elements through the slice view, so that quantified facts about
+			// the slice's elements have ground terms to match
+			arr := x.heapGet(st, x.elemsArr(at.Elem()), SArr(SInt, SArr(x.idxSort(), x.sortOf(at.Elem()))))
+			for k := int64(0); k < at.Len(); k++ {
+				kt := x.intLit(k, x.idxSort())
+				st.assume(Eq(x.sliceElem(st, hdr, kt, at.Elem()), Select(Select(arr, base), Add(lo, kt))))
+			}
+		}
+		return TV{T: hdr}
 	case *types.Basic:
 		// string slicing: opaque
 		r := x.d.Fresh("substr", SInt)
